@@ -99,7 +99,11 @@ def check(scn):
                 x = sample(a, i) if a != "u_two" else pd.concat([sample("u_in", i), sample("u_out", i)], ignore_index=True)
                 d.update(x)
             else:
-                d.give_oracle_label(labelled(a, i))
+                lab = labelled(a, i)
+                if scn.get("perm") and a in ("g_ok", "g_bad"):
+                    # the same labelled sample with its columns in another order (names identify the columns)
+                    lab = lab[[["x1", "x0", "y"], ["y", "x1", "x0"], ["x1", "y", "x0"]][scn["perm"] - 1]]
+                d.give_oracle_label(lab)
         except ValueError:
             raised = "ValueError"
         except Exception as e:
@@ -131,6 +135,15 @@ def check(scn):
                     acc = float(np.mean(pred == od["y"].to_numpy()))
                     if m["ref"]["acc"] - acc > sens * m["ref"]["acc_std"]:
                         m["state"] = "drift"
+                    if scn.get("perm"):
+                        # the verdict of the confirmation is about the named columns; what follows (a reference whose
+                        # columns are stored in the labelled samples' order) is outside this scenario
+                        if raised:
+                            return "legal call %d (%s, columns reordered) was refused (%s)" % (i, a, raised)
+                        if d.drift_state != m["state"]:
+                            return ("after call %d (%s, labelled samples with reordered columns): state %r, accuracy on the "
+                                    "named feature columns gives %r" % (i, a, d.drift_state, m["state"]))
+                        return None
                     kk = min(k, len(od))
                     m["ref"] = ref_stats(od, k) if len(od) >= k else None
                     if m["ref"] is None:
@@ -196,5 +209,20 @@ def run(tier, seed, repo, focus=None):
             if msg:
                 res.violation("MD3: " + msg, REPLAY % dict(verif=VERIF, scn=scn), known)
                 break
+    # labelled samples whose columns come in another order than the reference's (accepted: names identify the columns)
+    for sens, L, k, n in configs[:2]:
+        for perm in (1, 2, 3):
+            for labs in itertools.product(("g_ok", "g_bad"), repeat=L):
+                for lead in (("u_in",), ("u_out", "u_in"), ("u_in", "g_cols")):
+                    seq = lead + labs
+                    scn = {"seq": list(seq), "sensitivity": sens, "oracle_len": L, "k": k, "n": n, "seed": seed, "perm": perm}
+                    try:
+                        msg = check(scn)
+                    except Exception as e:
+                        msg = "%s: %s" % (type(e).__name__, e)
+                    res.count(key=(sens, L, tuple(seq), perm), nontrivial=(scn.get("_warned", False)), n=len(seq),
+                              check="MD3 protocol (labelled samples with reordered columns)")
+                    if msg:
+                        res.violation("MD3: " + msg, REPLAY % dict(verif=VERIF, scn=scn), known)
     res.sample({"check": "MD3 protocol", "sequence": ["u_in", "u_in", "g_ok", "u_out", "g_bad"], "sensitivity": 0.5, "oracle_len": 2})
     return res.finish()
